@@ -28,6 +28,9 @@ type Scenario struct {
 	Demotion bool
 	MaxSteps int
 	Horizon  time.Duration
+	// Agg, when set, makes the coverage of this scenario be added to one
+	// aggregate entry of that name in the evidence (families of tiny scenarios).
+	Agg string
 }
 
 // Violation is one property violation with its replayable schedule.
@@ -112,6 +115,24 @@ type Explorer struct {
 	OnViolation func(v *Violation) bool
 	stop        bool
 	item        int
+	all         bool
+}
+
+// ExploreAll explores the complete tree of choice sequences in one pass
+// (no deviation bound).  CompletedD is set to the largest number of
+// deviations seen.
+func (e *Explorer) ExploreAll() bool {
+	if e.ShardCount == 0 {
+		e.ShardCount = 1
+	}
+	e.all = true
+	e.item = 0
+	e.dfs(nil, 0, 1<<30)
+	if e.stop {
+		e.Stats.Incomplete = true
+		return false
+	}
+	return true
 }
 
 func (e *Explorer) cfg(r *rec, trace bool) vrt.Config {
@@ -181,7 +202,10 @@ func (e *Explorer) dfs(prefix []int, cost, bound int) {
 	top := len(prefix) == 0
 	// only executions with exactly `bound` deviations are new in this pass;
 	// the canonical execution is accounted by shard 0
-	mine := cost == bound && (!top || e.ShardIndex == 0)
+	mine := (cost == bound || e.all) && (!top || e.ShardIndex == 0)
+	if e.all && cost > e.Stats.CompletedD {
+		e.Stats.CompletedD = cost
+	}
 	r, out, viol, _ := e.runOnce(prefix, mine)
 	if viol != "" && mine {
 		v := &Violation{Scenario: e.Sc.Name, Params: e.Sc.Params, Policy: int(e.Sc.Policy), Demotion: e.Sc.Demotion,
